@@ -433,6 +433,8 @@ class PipeOps(FullOps):
             d = self.const_int(dim) if dim is not None else 0
             e = lst.elem if lst.items is None else (join_all(lst.items))
             order = lst.order
+            if lst.items is not None and order is None:
+                order = (("literal-sequence",), "same")
             org = e.origin if isinstance(e, TV) else frozenset()
             self.pev("pack", node, fn=fn, dim=d, order=repr(order), elem=repr(e), in_loop=bool(self.loop_orders))
             inner = e.layout if isinstance(e, TV) else ()
